@@ -136,6 +136,9 @@ def _cap(ctx, case):
         for s_, kind, t in C._crossings(float(a), float(h), vs[k], vs[(k + 1) % len(vs)]):
             want.append((0 if kind == "base" else 1, k, t, s_))
     got = [r for r in rows if r[2] is not None]
+    if any(r[2] is None for r in rows) or any(r[2] is None for r in swapped):
+        fails.append(Fail(kind="O", what="a pair of different segments is reported as 'equal segments' (None row)",
+                          impl=[repr(r) for r in rows if r[2] is None][:3]))
     for (ia, ib, u, v) in got:
         p, q = JA.segments[ia](u), JB.segments[ib](v)
         if abs(float(p[0]) - float(q[0])) > 1e-6 or abs(float(p[1]) - float(q[1])) > 1e-6:
@@ -223,6 +226,9 @@ def _rotcircle(ctx, case):
     rows, swapped = ri[1]
     got = [r for r in rows if r[2] is not None]
     gsw = [r for r in swapped if r[2] is not None]
+    if len(got) != len(rows) or len(gsw) != len(swapped):
+        fails.append(Fail(kind="O", what="a pair of different segments is reported as 'equal segments' (None row)",
+                          impl=[repr(r) for r in rows if r[2] is None][:3]))
     match = lambda w, r: w[0] == r[0] and w[1] == r[1] and abs(w[2] - float(r[2])) < 1e-5 and abs(w[3] - float(r[3])) < 1e-5
     missing = [w for w in want if not any(match(w, r) for r in got)]
     extra = [r for r in got if not any(match(w, r) for w in want)]
